@@ -39,3 +39,70 @@ LEVEL = {
 }
 
 NOT_APPLICABLE = {}
+
+TRUST = ' Trusted: Lean kernel, Mathlib, translator + PyR reading of the primitives (validated bitwise against the real code on every run).'
+
+LEVEL['C01'] = dict(
+    technique='Lean 4 theorems over the regenerated real-number model (Krüger α series = independently derived reference by ring, conformal latitude / Gauss–Schreiber identities, zone selection, validation logic) + bitwise translator validation',
+    text='Machine-checked for all inputs about the Lean term regenerated from convert.py: every α coefficient polynomial equals '
+         'the independently derived Krüger–Karney series to n^8 (ring), rectifying radius, the conformal-latitude expression '
+         'equals sinh(arsinh t − e·artanh(e sin φ)), Gauss–Schreiber identities, the series step is the complex sine series, '
+         'all x/y symmetries, false origin and hemisphere decision logic for any Projection, automatic zone in 1..60 with '
+         '|lon − CM| ≤ w/2 on [−180, 180], ISG zone digits, validation iff, rounding bound, psf call site uses the call\'s '
+         'own ellipsoid/projection.',
+    note=PARTIAL + 'Here: |E − E_exact|, |N − N_exact| ≤ 0.2 mm (search against an exact-TM oracle by complex quadrature).' + TRUST + ' Spec/Krueger.lean derived by tools/derive_krueger.py.')
+LEVEL['C02'] = dict(
+    technique='Lean 4 theorems over the regenerated model (β series vs reference with explicit deviation polynomial, exact Gauss–Schreiber inverse, Newton target/derivative via HasDerivAt, loop-exit lemma, hemisphere mirror, validation iff) + bitwise translator validation',
+    text='Machine-checked for all inputs: β coefficients equal the reference series except an explicit O(n^6) deviation of '
+         'β2 bounded by 0.14 n^6; the inverse Gauss–Schreiber step exactly inverts the forward one; the Newton loop solves '
+         'the forward conformal-latitude equation (ftn = 0 iff forward formula, f1tn is its derivative), exits within the '
+         'cap with the stated condition; north/south mirror gives opposite latitude, equal longitude/psf, opposite '
+         'convergence; validation iff; psf call site.',
+    note=PARTIAL + 'Here: 0.2 mm / 2e-9 deg / 1e-10 deg closure bounds and the stand-alone converter (search only).' + TRUST)
+LEVEL['C10'] = dict(
+    technique='Lean 4 theorems over the regenerated model (p + iq = derivative of the complex Krüger series by HasDerivAt, factorisation of the point scale, convergence terms and sign rule, call sites pass the call\'s ellipsoid and projection) + bitwise translator validation',
+    text='Machine-checked for all inputs: psf/convergence depend only on the call\'s ellipsoid and projection and psf is '
+         'linear in the central scale; both conversions pass their own ellipsoid and projection; p + iq is the complex '
+         'derivative of the series so sqrt(p²+q²) is its modulus; psf factorises into series scale × spherical TM scale × '
+         'conformal-sphere scale; second convergence term equals |atan(sin χ tan ω)|; sign rule, oddness, zeros.',
+    note=PARTIAL + 'Here: 2e-8 / 1e-9 deg against the exact projection (search, differentiated exact-TM oracle).' + TRUST)
+LEVEL['C04'] = dict(
+    technique='Lean 4 theorems over the regenerated model (Vincenty A, B, C series identities, u² from the call\'s ellipsoid only, Clairaut and auxiliary-sphere identities, forBreak loop lemma, zero-distance case) + bitwise translator validation',
+    text='Machine-checked for all inputs: the generated vincdir equals the composition of named pieces; A, B equal '
+         'Vincenty\'s polynomials (A\'s coefficients are the binomial Taylor coefficients), C, u² uses only the ellipsoid '
+         'argument; Clairaut relation and its reverse form, the end point is the great-circle end point on the auxiliary '
+         'sphere, latitude recovered by tan φ = tan u/(1−f); loop recurrence and exit condition; s = 0 returns the start '
+         'point and azimuth ± 180; rounding bounds.',
+    note=PARTIAL + 'Here: 1 mm / 1e-8 deg against the exact geodesic (search, quadrature oracle).' + TRUST)
+LEVEL['C05'] = dict(
+    technique='Lean 4 theorems over the regenerated model (longitude-shift invariance, ±360 periodicity by a relational forBreak lemma, swap symmetry of the distance, azimuth ranges, series identities, loop exit) + bitwise translator validation',
+    text='Machine-checked for all inputs: coincidence test; invariance under a common longitude offset; ±360° on one '
+         'longitude leaves all outputs unchanged outside the coincidence branch (and a proved counterexample shows the guard '
+         'is needed); swapping the points gives the same distance and exchanged azimuths; azimuth ranges; A, B, C, u², '
+         'distance formula; loop exit; rounding bounds.',
+    note=PARTIAL + 'Here: 2 mm / azimuth accuracy against the exact geodesic and the binary64 preservation of the proved '
+         'symmetries to 1 mm (search). Known finding: reverse azimuth noise on lines < 10 m.' + TRUST)
+LEVEL['C13'] = dict(
+    technique='Lean 4 theorems over the regenerated model (each direction equals the stepwise pipeline term-for-term, height-absent and natural-zone corollaries, covariance path) + translator validation',
+    text='Machine-checked: each MGA transformation is exactly grid→geographic (UTM/GRS80/south) → Cartesian at the supplied '
+         'height (0 if absent) → 7-parameter with gda94_to_gda2020 (resp. its negation) → geographic → grid in the natural '
+         'zone, height rounded to 4 places; absent height returns exactly 0 while the number 0 is a height; covariance is '
+         'rotated in at the input position, propagated J Q Jᵀ, rotated out at the output position, returned iff supplied.',
+    note=PARTIAL + 'Here: 0.3 mm / 0.2 mm closure (inherits C02/C03 numeric gaps; search). 3x1 variance columns are exercised '
+         'on the real code only.' + TRUST)
+LEVEL['C14'] = dict(
+    technique='Lean 4 theorems over the regenerated model (grid inverse = stated composition by rfl, Deakin line-scale-factor formula and its algebra, cross-zone re-projection, whileLoopE exit lemma, argument threading) + bitwise translator validation',
+    text='Machine-checked: vincinv_utm is grid2geo (call\'s hemisphere/ellipsoid) → vincinv → × line scale factor, bearings '
+         '= azimuths + convergence at each end; line_sf is Deakin\'s formula (symmetric, ≥ k0, point-scale limit), ρ and ν '
+         'of the call\'s ellipsoid; cross-zone re-projection; vincdir_utm structure and exit condition; every inner call '
+         'receives the outer hemisphere/ellipsoid except the stated pre-loop estimate.',
+    note=PARTIAL + 'Here: 1 mm closure and 3e-7 / 5e-7 scale-factor comparisons (search). Known findings: vincdir_utm at the '
+         'equator and at the latitude limits.' + TRUST)
+LEVEL['C16'] = dict(
+    technique='Lean 4 theorems over the regenerated model using Mathlib Matrix algebra (orthonormality, det, similarity invariants charpoly/trace/det, PosSemidef, eigen equations of the error ellipse, table logic) + translator validation (scaled tolerance on BLAS paths)',
+    text='Machine-checked for all inputs: the rotation matrix is orthonormal with det 1 and its up column is the ellipsoid '
+         'normal; ENU↔XYZ are exact inverses and isometries; covariance rotation is RᵀVR (symmetry, trace, det, '
+         'characteristic polynomial, PSD preserved; round trip exact; 3x1 = rotated diagonal); error-ellipse semi-axes '
+         'squared are the eigenvalues of the horizontal block, orientation is an eigenvector bearing, singular blocks give '
+         'minor axis 0; relative error is the ellipse of Rᵀ(V1+V2−C−Cᵀ)R; coverage-factor table logic and monotonicity.',
+    note=PARTIAL + 'Here: the t-quantile values (scipy comparison only) and binary64 rounding.' + TRUST)
